@@ -314,7 +314,7 @@ func c02Units(thorough bool) []*explore.Unit {
 				p := c02Params{mix: m.name, calls: m.calls, cfg: m.cfg, hold: hold, excKind: e.kind, excKey: e.key, excClass: e.class}
 				out := &c02Obs{}
 				units = append(units, &explore.Unit{
-					Name: fmt.Sprintf("%s|hold=%v|exc=%s:%s:%s", m.name, hold, e.kind, e.key, e.class), Bound: bound,
+					Name: fmt.Sprintf("%s|hold=%v|exc=%s:%s:%s", m.name, hold, e.kind, e.key, e.class), Bound: c02Bound(thorough, bound, len(m.calls), e.kind),
 					Opt: vrt.Options{MaxSteps: 20000}, Body: c02Body(p, out), Check: c02Check(p, out),
 					Sig: func() string {
 						var sb strings.Builder
@@ -340,4 +340,11 @@ func init() {
 		Quick:       100 * time.Second, Thorough: 15 * time.Minute,
 		Units: c02Units,
 	})
+}
+
+func c02Bound(thorough bool, bound, calls int, exc string) int {
+	if thorough && calls == 2 && exc == "" {
+		return 3
+	}
+	return bound
 }
